@@ -18,7 +18,7 @@ def build_jobs(t: str, sd: int):
         loop_k, nrand = 2, 0
     else:
         versions = {"A": list(range(2, 11)), "S": list(range(2, 11))}
-        loop_k, nrand = 3, 250
+        loop_k, nrand = 4, 600
     for mode, vs in versions.items():
         for v in vs:
             fams = []
